@@ -196,7 +196,7 @@ pub fn execute(plan: &Plan, engine: Engine, crash_seed: u64, images: usize, only
     };
     if r.is_err() {
         out.harness_panic = true;
-        out.viol = Some((Viol { prop: "C08".into(), tag: "panic".into(), detail: "panic escaped an API call during the run".into() }, Extra::None));
+        out.viol = Some((Viol { prop: ex.prop_under_check.clone(), tag: "panic".into(), detail: format!("panic escaped during the run: {}", last_panic()) }, Extra::None));
         return out;
     }
     if let Some(v) = ex.viols.first() {
@@ -389,6 +389,7 @@ pub fn replay_file(path: &str) -> i32 {
         }
     };
     let engine = engine_of(&rep.engine);
+    crate::exec::PROP_UNDER_CHECK.with(|p| *p.borrow_mut() = rep.property.clone());
     let only = if rep.extra == Extra::None { None } else { Some(&rep.extra) };
     let (cs, im) = if only.is_none() { (mix(rep.seed, rep.run) ^ 0x5eed, rep.images) } else { (0, 0) };
     let o = execute(&rep.plan, engine, cs, im, only);
@@ -536,6 +537,7 @@ pub fn known_finding(v: &Viol) -> Option<String> {
 
 pub fn explore(o: &Opts) -> i32 {
     let start = Instant::now();
+    crate::exec::PROP_UNDER_CHECK.with(|p| *p.borrow_mut() = o.prop.clone());
     let next = AtomicU64::new(0);
     let stop = AtomicBool::new(false);
     let agg = Mutex::new(Agg::default());
@@ -556,6 +558,7 @@ pub fn explore(o: &Opts) -> i32 {
         for _ in 0..nthreads {
             s.spawn(|| {
               let my = tid.fetch_add(1, Ordering::Relaxed);
+              crate::exec::PROP_UNDER_CHECK.with(|p| *p.borrow_mut() = o.prop.clone());
               let status = o.status_dir.as_ref().and_then(|d| std::fs::File::create(format!("{d}/t{my}")).ok());
               loop {
                 if stop.load(Ordering::Relaxed) || start.elapsed().as_secs() >= o.max_secs {
